@@ -94,8 +94,10 @@ def w_addr(arg):
                 if df in AA_DF:
                     nd = 3 + (56 if n == 112 else 0)
                 pays = payloads(nd, seed, singles and n == NATURAL[df])
-                ics = [0, 5, 37] if df == 11 else [0]
                 for i, pay in enumerate(pays):
+                    # DF11: the interrogator code (CL,IC = 0..79: II 0-15, SI 1-63) is overlaid on the parity; every legal
+                    # code on the first two payloads, one code of every CL group (rotating) on the others
+                    ics = [0] if df != 11 else (list(range(80)) if i < 2 else [0, 5, 16 + (i % 16), 37, 48 + (i % 16), 64 + (i % 16), 79])
                     for ic in ics:
                         m = build(df, n, addr, pay, ic)
                         for cs in ("U", "l", "m") if i < 6 else ("Ulm"[i % 3],):
